@@ -258,20 +258,26 @@ var (
 // checkDenied validates a LOCK4denied reply: it must name another owner
 // that really holds a conflicting lock intersecting the requested range.
 func (m *lockModel) checkDenied(w *world, f failer, what, file, owner string, start, end uint64, shared bool, d *nfsv4.Lock4denied) {
+	if fp, msg := m.deniedProblem(w, what, file, owner, start, end, shared, d); fp != "" {
+		f.FailP("C20", fp, "%s", msg)
+	}
+}
+
+// deniedProblem is the side-effect free core of checkDenied: it returns a
+// fingerprint and a message if the LOCK4denied reply is not explained by
+// the model, and two empty strings otherwise.
+func (m *lockModel) deniedProblem(w *world, what, file, owner string, start, end uint64, shared bool, d *nfsv4.Lock4denied) (string, string) {
 	holder, ok := w.protocolOwner(d.Owner.Clientid, string(d.Owner.Owner))
 	if !ok {
-		f.FailP("C20", "denied-names-unknown-owner", "%s denied naming an owner that does not exist: %x/%q", what, d.Owner.Clientid, d.Owner.Owner)
-		return
+		return "denied-names-unknown-owner", fmt.Sprintf("%s denied naming an owner that does not exist: %x/%q", what, d.Owner.Clientid, d.Owner.Owner)
 	}
 	if holder == owner {
-		f.FailP("C20", "denied-by-own-lock", "%s by %s on %s was denied because of a lock of the same owner (offset %d, length %d)", what, owner, file, d.Offset, d.Length)
-		return
+		return "denied-by-own-lock", fmt.Sprintf("%s by %s on %s was denied because of a lock of the same owner (offset %d, length %d)", what, owner, file, d.Offset, d.Length)
 	}
 	ds, de, rok := rangeOf(d.Offset, d.Length)
 	dShared := d.Locktype == nfsv4.READ_LT || d.Locktype == nfsv4.READW_LT
 	if !rok || !(ds < end && start < de) || (dShared && shared) {
-		f.FailP("C20", "denied-names-non-conflicting-range", "%s [%d,%d) shared=%v was denied naming offset %d length %d type %d, which does not conflict", what, start, end, shared, d.Offset, d.Length, d.Locktype)
-		return
+		return "denied-names-non-conflicting-range", fmt.Sprintf("%s [%d,%d) shared=%v was denied naming offset %d length %d type %d, which does not conflict", what, start, end, shared, d.Offset, d.Length, d.Locktype)
 	}
 	// Every byte of the reported range must really be held by that
 	// owner with that type.
@@ -289,6 +295,16 @@ func (m *lockModel) checkDenied(w *world, f failer, what, file, owner string, st
 		}
 	}
 	if covered < de {
-		f.FailP("C20", "denied-names-range-not-held", "%s was denied naming [%d,%d) of %s, which that owner does not hold (model: %s)", what, ds, de, holder, segments(m.files[file]))
+		return "denied-names-range-not-held", fmt.Sprintf("%s was denied naming [%d,%d) of %s, which that owner does not hold (model: %s)", what, ds, de, holder, segments(m.files[file]))
 	}
+	return "", ""
+}
+
+// clone returns an independent copy of the model.
+func (m *lockModel) clone() *lockModel {
+	c := newLockModel()
+	for f, ls := range m.files {
+		c.files[f] = append([]modelLock(nil), ls...)
+	}
+	return c
 }
